@@ -74,17 +74,19 @@ func (c Cmd) String() string {
 
 // Node is one simulated Redis instance.
 type Node struct {
-	C        *Cluster
-	Idx      int
-	ID       string
-	Addr     string
-	MasterOf *Node // nil for masters
-	store    *Store
-	Silent   bool // reads commands but never answers
-	Down     bool
-	ln       vnet.Listener
-	conns    []*vnet.VConn
-	Accepted int
+	C    *Cluster
+	Idx  int
+	ID   string
+	Addr string
+	// ListenAddr, when set, is the numeric address the node listens on while Addr is a host name.
+	ListenAddr string
+	MasterOf   *Node // nil for masters
+	store      *Store
+	Silent     bool // reads commands but never answers
+	Down       bool
+	ln         vnet.Listener
+	conns      []*vnet.VConn
+	Accepted   int
 	// scripted SCAN: cursor -> (next cursor, keys)
 	ScanChain map[string]ScanStep
 	// BadReplies, when non-nil, maps a lower-case command name to raw bytes sent instead of the real reply.
@@ -106,7 +108,11 @@ type Cluster struct {
 	Log       []Cmd
 	// NodesTextOverride replaces the CLUSTER NODES answer when set.
 	NodesTextOverride string
-	connSeq           int
+	// HoldCluster delays the delivery of CLUSTER command answers (network latency) until it is cleared;
+	// Held counts the answers that were delayed.
+	HoldCluster bool
+	Held        int
+	connSeq     int
 }
 
 // New builds a cluster of nMasters masters with replicasPer replicas each; group g is owned by master g % nMasters.
@@ -191,9 +197,23 @@ func (c *Cluster) Start() {
 	}
 }
 
+// UseHostnames renames every node to a host name (what CLUSTER NODES announces and what the proxy dials);
+// the virtual network resolves it to the numeric address the node listens on. Call before Start.
+func (c *Cluster) UseHostnames() {
+	for _, n := range c.Nodes {
+		n.ListenAddr = n.Addr
+		n.Addr = "redis-" + n.ID + ".local:6379"
+	}
+}
+
 // Up (re)starts the node's listener.
 func (n *Node) Up() {
-	ln, err := vnet.Listen("tcp", n.Addr)
+	la := n.Addr
+	if n.ListenAddr != "" {
+		la = n.ListenAddr
+		vnet.Alias(n.Addr, la)
+	}
+	ln, err := vnet.Listen("tcp", la)
 	if err != nil {
 		panic(err)
 	}
@@ -296,6 +316,11 @@ func (n *Node) serve(conn *vnet.VConn, id int) {
 		n.C.Log = append(n.C.Log, Cmd{Node: n.ID, Replica: n.MasterOf != nil, Conn: id, Args: sargs, Asking: wasAsking, Reply: strings.TrimRight(head, "\r\n"), Redirect: redirect})
 		if n.Silent {
 			continue
+		}
+		if n.C.HoldCluster && len(sargs) > 0 && strings.EqualFold(sargs[0], "cluster") {
+			// the answer (computed from the layout as it is now) is in flight until the harness releases it
+			n.C.Held++
+			sched.Wait("held-reply", n, func() bool { return !n.C.HoldCluster })
 		}
 		if _, err := conn.Write(raw); err != nil {
 			conn.Close()
